@@ -200,6 +200,8 @@ type Frame struct {
 	label    string // prefix for obligation labels when inlined
 	loopRecs map[*loopInfo]*loopRec
 	curBlock *ssa.BasicBlock
+	asserted map[*Clause]bool
+	unrolling map[*ssa.BasicBlock]*[]incoming
 }
 
 type retInfo struct {
@@ -455,30 +457,63 @@ func (ex *Exec) mergeStates(ins []incoming) (*Term, *State) {
 	return pc, base
 }
 
-// runBody executes fn's body from the given state; returns the merged return.
+type bodyRT struct {
+	loops   []*loopInfo
+	back    map[[2]int]bool
+	headers map[*ssa.BasicBlock]*loopInfo
+	order   []*ssa.BasicBlock
+}
+
+// runBody executes fn's body from the given state; returns are collected in fr.results.
 func (ex *Exec) runBody(fr *Frame, st0 *State, pc0 *Term) {
 	fn := fr.fn
 	if len(fn.Blocks) == 0 {
 		panic(unsupported("function without body: " + fn.String()))
 	}
-	loops := findLoops(fn)
-	back := map[[2]int]bool{}
-	headers := map[*ssa.BasicBlock]*loopInfo{}
-	for _, li := range loops {
-		headers[li.header] = li
+	rt := &bodyRT{back: map[[2]int]bool{}, headers: map[*ssa.BasicBlock]*loopInfo{}}
+	rt.loops = findLoops(fn)
+	for _, li := range rt.loops {
+		rt.headers[li.header] = li
 		for _, p := range li.header.Preds {
 			if li.body[p] {
-				back[[2]int{p.Index, li.header.Index}] = true
+				rt.back[[2]int{p.Index, li.header.Index}] = true
 			}
 		}
 	}
-	order := rpo(fn, back)
+	rt.order = rpo(fn, rt.back)
 	in := map[*ssa.BasicBlock][]incoming{}
 	in[fn.Blocks[0]] = []incoming{{nil, pc0, st0}}
 	fr.edgeConds = map[*ssa.BasicBlock]map[*ssa.BasicBlock]*Term{}
+	fr.unrolling = map[*ssa.BasicBlock]*[]incoming{}
 	ex.frames = append(ex.frames, fr)
 	defer func() { ex.frames = ex.frames[:len(ex.frames)-1] }()
-	for _, b := range order {
+	ex.execBlocks(fr, rt, rt.order, in, nil, nil)
+}
+
+type exitFn func(from, to *ssa.BasicBlock, pc *Term, st *State)
+
+// execBlocks runs the given blocks (in reverse post-order); edges leaving `region` go to onExit.
+func (ex *Exec) execBlocks(fr *Frame, rt *bodyRT, blocks []*ssa.BasicBlock, in map[*ssa.BasicBlock][]incoming,
+	region map[*ssa.BasicBlock]bool, onExit exitFn) {
+	flow := func(from, to *ssa.BasicBlock, pc *Term, st *State) {
+		if pc.IsFalse() {
+			return
+		}
+		if rt.back[[2]int{from.Index, to.Index}] {
+			if lst := fr.unrolling[to]; lst != nil {
+				*lst = append(*lst, incoming{from, pc, st})
+				return
+			}
+			ex.loopBackEdge(fr, rt.headers[to], pc, st)
+			return
+		}
+		if region != nil && !region[to] {
+			onExit(from, to, pc, st)
+			return
+		}
+		in[to] = append(in[to], incoming{from, pc, st})
+	}
+	for _, b := range blocks {
 		fr.curBlock = b
 		ins := in[b]
 		if len(ins) == 0 {
@@ -490,8 +525,12 @@ func (ex *Exec) runBody(fr *Frame, st0 *State, pc0 *Term) {
 			continue
 		}
 		st = st.clone()
-		if li, ok := headers[b]; ok {
-			pc, st = ex.cutLoop(fr, li, pc, st, len(loops))
+		if li, ok := rt.headers[b]; ok && fr.unrolling[b] == nil {
+			if n := ex.unrollCount(fr, li, len(rt.loops)); n > 0 {
+				ex.unrollLoop(fr, rt, li, n, pc, st, flow)
+				continue
+			}
+			pc, st = ex.cutLoop(fr, li, pc, st, len(rt.loops))
 		}
 		// phi edge conditions
 		ec := map[*ssa.BasicBlock]*Term{}
@@ -514,11 +553,11 @@ func (ex *Exec) runBody(fr *Frame, st0 *State, pc0 *Term) {
 			case *ssa.If:
 				c := ex.val(fr, st, x.Cond).(VBool).T
 				t, f := And(pc, c), And(pc, Not(c))
-				ex.flow(fr, b, b.Succs[0], t, st, in, back, headers)
-				ex.flow(fr, b, b.Succs[1], f, st.clone(), in, back, headers)
+				flow(b, b.Succs[0], t, st)
+				flow(b, b.Succs[1], f, st.clone())
 				alive = false
 			case *ssa.Jump:
-				ex.flow(fr, b, b.Succs[0], pc, st, in, back, headers)
+				flow(b, b.Succs[0], pc, st)
 				alive = false
 			case *ssa.Return:
 				var rv Value
@@ -537,6 +576,7 @@ func (ex *Exec) runBody(fr *Frame, st0 *State, pc0 *Term) {
 				ex.doPanic(fr, st, pc, x)
 				alive = false
 			default:
+				ex.checkAsserts(fr, st, pc, instr)
 				pc = ex.step(fr, st, pc, instr)
 				if pc.IsFalse() {
 					alive = false
@@ -546,16 +586,85 @@ func (ex *Exec) runBody(fr *Frame, st0 *State, pc0 *Term) {
 	}
 }
 
-func (ex *Exec) flow(fr *Frame, from, to *ssa.BasicBlock, pc *Term, st *State, in map[*ssa.BasicBlock][]incoming,
-	back map[[2]int]bool, headers map[*ssa.BasicBlock]*loopInfo) {
-	if pc.IsFalse() {
+// unrollCount: number of iterations to unroll this loop (0 = cut by invariants)
+func (ex *Exec) unrollCount(fr *Frame, li *loopInfo, nloops int) int {
+	c := ex.contractOfFrame(fr)
+	if c == nil || c.NLoops != nloops {
+		return 0
+	}
+	return c.Unroll[li.ord]
+}
+
+// unrollLoop executes the loop body n times; reaching the header an (n+1)-th time is an
+// "unwind" obligation, so a discharged unrolling is complete, not bounded.
+func (ex *Exec) unrollLoop(fr *Frame, rt *bodyRT, li *loopInfo, n int, pc *Term, st *State, outer func(from, to *ssa.BasicBlock, pc *Term, st *State)) {
+	// SSA values defined inside the loop must not be used after it (they would be overwritten)
+	for b := range li.body {
+		for _, in := range b.Instrs {
+			v, ok := in.(ssa.Value)
+			if !ok || v.Referrers() == nil {
+				continue
+			}
+			for _, r := range *v.Referrers() {
+				if !li.body[r.Block()] {
+					panic(unsupported(fmt.Sprintf("unroll: value %s defined in loop %d is used after it", v.Name(), li.ord)))
+				}
+			}
+		}
+	}
+	var bodyOrder []*ssa.BasicBlock
+	for _, b := range rt.order {
+		if li.body[b] {
+			bodyOrder = append(bodyOrder, b)
+		}
+	}
+	cur := []incoming{{nil, pc, st}}
+	// n body iterations need n+1 evaluations of the header
+	for iter := 0; iter <= n && len(cur) > 0; iter++ {
+		var backIn []incoming
+		fr.unrolling[li.header] = &backIn
+		inLocal := map[*ssa.BasicBlock][]incoming{li.header: cur}
+		ex.execBlocks(fr, rt, bodyOrder, inLocal, li.body, func(from, to *ssa.BasicBlock, p *Term, s *State) {
+			outer(from, to, p, s)
+		})
+		delete(fr.unrolling, li.header)
+		cur = backIn
+	}
+	if len(cur) > 0 {
+		var pcs []*Term
+		for _, c := range cur {
+			pcs = append(pcs, c.pc)
+		}
+		c := ex.contractOfFrame(fr)
+		ex.oblige(fr, "unwind", fmt.Sprintf("loop %d: at most %d iterations", li.ord, n), li.header.Instrs[0].Pos(), Or(pcs...), False, c.Props)
+	}
+}
+
+// checkAsserts: mid-function assertions anchored at a source statement: proved when the
+// statement is first reached, assumed afterwards.
+func (ex *Exec) checkAsserts(fr *Frame, st *State, pc *Term, instr ssa.Instruction) {
+	if !fr.top || ex.curContract == nil || len(ex.curContract.Asserts) == 0 || fr.spec {
 		return
 	}
-	if back[[2]int{from.Index, to.Index}] {
-		ex.loopBackEdge(fr, headers[to], pc, st)
+	pos := instr.Pos()
+	if !pos.IsValid() {
 		return
 	}
-	in[to] = append(in[to], incoming{from, pc, st})
+	if _, ok := instr.(*ssa.DebugRef); ok {
+		return
+	}
+	p := ex.V.fset.Position(pos)
+	for _, a := range ex.curContract.Asserts {
+		if fr.asserted[a] || p.Filename != a.AnchorFile || p.Offset < a.AnchorOff || p.Offset >= a.AnchorEndOff {
+			continue
+		}
+		if fr.asserted == nil {
+			fr.asserted = map[*Clause]bool{}
+		}
+		fr.asserted[a] = true
+		t := ex.evalClause(fr, st, pc, a, nil)
+		ex.oblige(fr, "assert", a.Anchor+": "+a.Text, pos, pc, t, a.Props)
+	}
 }
 
 // ---------------------------------------------------------------- values
